@@ -124,7 +124,7 @@ func (p *parser) parseDeclaration(f *File, start int, exported, isDefault bool) 
 		}
 		return false
 	}
-	strictOrNamed := !p.tolerant || (n.kind == tIdent && !n.nl)
+	strictOrNamed := !p.tolerant || exported || declare || (n.kind == tIdent && !n.nl)
 	var d *Decl
 	switch {
 	case t.text == "type" && strictOrNamed:
